@@ -43,6 +43,10 @@ type Response struct {
 	headEncoded  bool
 	hasBody      bool
 	hijacked     bool
+
+	// the length of the body is not announced: the body ends when
+	// the connection is closed.
+	closeDelimited bool
 }
 
 // Hijack .
@@ -380,6 +384,14 @@ func (res *Response) Flush() {
 
 	res.WriteHeader(http.StatusOK)
 	res.checkChunked()
+	if !res.headEncoded && !res.chunked && len(res.header[contentLengthHeader]) == 0 &&
+		res.statusCode != http.StatusNoContent && res.statusCode != http.StatusNotModified {
+		// The head goes out before the body is complete and nothing tells its
+		// length (no chunked coding for this client, no Content-Length from the
+		// handler): the body is delimited by closing the connection.
+		res.closeDelimited = true
+		res.request.Close = true
+	}
 	res.eoncodeHead()
 
 	conn := res.Parser.Conn
@@ -469,7 +481,7 @@ func (res *Response) eoncodeHead() {
 		const contentType = "Content-Type: text/plain; charset=utf-8\r\n"
 		pdata = mempool.AppendString(pdata, contentType)
 	}
-	if !res.chunked && len(res.header[contentLengthHeader]) == 0 {
+	if !res.chunked && !res.closeDelimited && len(res.header[contentLengthHeader]) == 0 {
 		const contentLenthPrefix = "Content-Length: "
 		if !res.hasBody {
 			pdata = mempool.AppendString(pdata, contentLenthPrefix)
